@@ -53,6 +53,9 @@ def scenarios(tier):
         st = [{"op": "setitem", "h": 0, "path": [], "args": ["first", {"x": [1, 2, 3]}]}] if c.endswith("Dict") else \
             [{"op": "append", "h": 0, "path": [], "args": [{"first": [1, 2, 3]}]}]
         S.append(("first_write_missing_file", c, 1, st))
+    for c in ("JSONDict", "BufferedJSONDict"):
+        # the file name is a symbolic link to the data file
+        S.append(("symlinked_file", c, 1, [{"op": "setitem", "h": 0, "path": [], "args": ["new", {"x": [1, 2, 3]}]}]))
     for c in ("JSONList", "BufferedJSONList", "MemoryBufferedJSONList"):
         S.append(("list_extend", c, 1, [{"op": "extend", "h": 0, "path": [], "args": [[1, "two", {"three": 3}]]}]))
         S.append(("list_pop", c, 1, [{"op": "pop", "h": 0, "path": [], "args": []}]))
@@ -77,7 +80,7 @@ def plan(tier, seed):
     for si, (name, cls, nfiles, steps) in enumerate(sc):
         for ci, cfg in enumerate(ATOMIC_CFGS):
             if tier == "quick" and (si + ci + seed) % 3 != 0 and name not in ("root_setitem", "backend_flush_3",
-                                                                               "first_write_missing_file"):
+                                                                               "first_write_missing_file", "symlinked_file"):
                 continue  # quick: each scenario in one configuration (rotating with the seed)
             specs.append({"kind": "crash", "scenario": si, "cfg": cfg, "tier": tier, "seed": seed})
     specs.append({"kind": "control", "tier": tier, "seed": seed})
@@ -92,7 +95,7 @@ INIT_L = [1, "two", [3, 4], {"five": 5}]
 class World:
     """Files with old content, objects, the action and the expected new contents."""
 
-    def __init__(self, cls_name, cfg, nfiles, steps, missing=False):
+    def __init__(self, cls_name, cfg, nfiles, steps, missing=False, symlink=False):
         self.info = catalog.info(cls_name)
         self.cls = self.info.cls()
         self.cfg = cfg
@@ -106,7 +109,7 @@ class World:
                 o.append(i)
         if missing:
             self.old = [MISSING for _ in range(nfiles)]
-        self.res = [catalog.Resource(self.info, self.scratch, f"f{i}") for i in range(nfiles)]
+        self.res = [catalog.Resource(self.info, self.scratch, f"f{i}", symlink=symlink) for i in range(nfiles)]
         ms = ModelState(self.info.kind, self.old)
         for h in range(nfiles):
             ms.add_root(h, h)
@@ -133,6 +136,14 @@ class World:
             if f.startswith("._"):
                 os.remove(os.path.join(self.scratch, f))
         for r, o in zip(self.res, self.old):
+            if r.symlink:
+                # a save may have replaced the link by a regular file: start every point from a link again
+                for pth in (r.path, r.target):
+                    try:
+                        os.remove(pth)
+                    except FileNotFoundError:
+                        pass
+                os.symlink(r.target, r.path)
             if o == MISSING:
                 r.remove()
                 continue
@@ -277,7 +288,8 @@ def run_shard(spec):
            "killed": 0}
     if spec["kind"] == "crash":
         name, cls, nfiles, steps = scenarios(spec["tier"])[spec["scenario"]]
-        world = World(cls, spec["cfg"], nfiles, steps, missing=name == "first_write_missing_file")
+        world = World(cls, spec["cfg"], nfiles, steps, missing=name == "first_write_missing_file",
+                      symlink=name == "symlinked_file")
         sample = {"scenario": name, "cls": cls, "cfg": spec["cfg"], "files": nfiles, "steps": steps}
         try:
             sweep(world, spec["tier"], out, {"cls": cls, "scenario": name, "stratum": "atomic"}, sample)
@@ -391,7 +403,8 @@ def replay(case):
         _unserializable(out, {"tier": "quick", "seed": 0})
         return [v for v in out["violations"] if v["case"].get("op") == case.get("op") and v["case"].get("cls") == case.get("cls")]
     world = World(case["cls"], case["cfg"], case["files"], case["steps"],
-                  missing=case.get("scenario") == "first_write_missing_file")
+                  missing=case.get("scenario") == "first_write_missing_file",
+                  symlink=case.get("scenario") == "symlinked_file")
     try:
         how, _ = inject.run_in_child(world.scratch, world.action, tuple(case["point"]))
         v = world.judge()
